@@ -5,6 +5,7 @@
 #include "ops.h"
 #include "memtrack.h"
 #include <pthread.h>
+#include <dlfcn.h>
 #if defined(__SANITIZE_ADDRESS__)
 #include <sanitizer/lsan_interface.h>
 #define LEAK_CHECK(out) do { if (__lsan_do_recoverable_leak_check()) fprintf(out, " LEAK"); } while (0)
@@ -230,6 +231,13 @@ static void run_fault(void *va, FILE *out) {
     mt_off();
     *ops = g_orig;
     fprintf(out, " fault@%d held=%ld end=%ld", faulted_step, mt_available() ? after_fault : 0, mt_available() ? mt_blocks() : 0);
+    if ((c.be == 4 || c.be == 7) && mt_available()) {
+        /* libisal is only ever loaded by the backend's dlopen: after the last destroy (and after a
+           create whose init failed) it must be gone again */
+        void *h = dlopen("libisal.so.2", RTLD_NOLOAD | RTLD_LAZY);
+        fprintf(out, h ? " lib=loaded" : " lib=unloaded");
+        if (h) dlclose(h);
+    }
     if (mt_double_frees()) fprintf(out, " DOUBLE-FREE");
     fclose(out);
     fputs(accbuf, real_out);
@@ -238,8 +246,9 @@ static void run_fault(void *va, FILE *out) {
 
 void suite_fault(int tier) {
     (void)tier;
-    cfg_t cfgs[] = { {6,4,2,2,2}, {3,5,5,3,2}, {0,3,2,2,2}, {6,1,1,1,2}, {3,10,6,4,2} };
-    for (unsigned ci = 0; ci < (tier ? 5u : 3u); ci++) for (int op = 0; op < 5; op++) for (int n = 0; n < 3; n++) {
+    cfg_t cfgs[] = { {6,4,2,2,2}, {3,5,5,3,2}, {0,3,2,2,2}, {4,4,2,2,2}, {6,1,1,1,2}, {3,10,6,4,2}, {7,3,3,3,2} };
+    for (unsigned ci = 0; ci < (tier ? 7u : 4u); ci++) for (int op = 0; op < 5; op++) for (int n = 0; n < 3; n++) {
+        if ((cfgs[ci].be == 4 || cfgs[ci].be == 7) && !g_isal) continue;
         fault_t F = { cfgs[ci], op, n };
         op_begin("fault %d %d %d %d %d %d", F.c.be, F.c.k, F.c.m, F.c.hd, op, n); op_sep();
         guarded(run_fault, &F);
